@@ -50,8 +50,12 @@ func genCase(t *rapid.T) Case {
 		switch {
 		case k <= 4:
 			v := rapid.SliceOfN(rapid.Byte(), 0, 12).Draw(t, "v")
-			if rapid.IntRange(0, 5).Draw(t, "bigv") == 0 {
+			switch rapid.IntRange(0, 9).Draw(t, "bigv") {
+			case 0, 1:
 				v = bytes.Repeat([]byte{'x'}, rapid.IntRange(200, 3000).Draw(t, "vlen")) // larger than the smallest message-size limit
+			case 2:
+				// two or three of these in one replication response exceed the size at which the worker splits its proposals (256 KiB)
+				v = bytes.Repeat([]byte{'X'}, rapid.IntRange(90, 200).Draw(t, "vKiB")*1024)
 			}
 			c.Acts = append(c.Acts, Act{Kind: "put", K: rapid.SampledFrom(keys).Draw(t, "k"), V: v})
 		case k == 5:
@@ -60,8 +64,18 @@ func genCase(t *rapid.T) Case {
 			c.Acts = append(c.Acts, Act{Kind: "delrange", K: rapid.SampledFrom(keys).Draw(t, "k"), End: rapid.SampledFrom([][]byte{{0}, []byte("c"), []byte("zz")}).Draw(t, "end")})
 		case k <= 10:
 			c.Acts = append(c.Acts, Act{Kind: "txn", N: rapid.IntRange(0, 3).Draw(t, "digit")})
-		case k <= 13:
+		case k <= 12:
 			c.Acts = append(c.Acts, Act{Kind: "poll", N: rapid.IntRange(0, len(replfx.LogSizes)-1).Draw(t, "server")})
+		case k == 13:
+			// a burst of sizeable writes that reaches the follower in ONE replication message (the 4 MiB log server) and has to be split
+			// into several proposals by the worker (256 KiB each)
+			for j, nb := 0, rapid.IntRange(2, 5).Draw(t, "burst"); j < nb; j++ {
+				c.Acts = append(c.Acts, Act{Kind: "put", K: rapid.SampledFrom(keys).Draw(t, "k"), V: bytes.Repeat([]byte{byte('A' + j)}, rapid.IntRange(70, 200).Draw(t, "burstKiB")*1024)})
+				if rapid.IntRange(0, 3).Draw(t, "bursttxn") == 0 {
+					c.Acts = append(c.Acts, Act{Kind: "txn", N: rapid.IntRange(0, 3).Draw(t, "digit")})
+				}
+			}
+			c.Acts = append(c.Acts, Act{Kind: "poll", N: len(replfx.LogSizes) - 1})
 		case k == 14:
 			// another follower cluster replicating the same leader table reads a suffix of the log (it shares the leader's log cache);
 			// half of the time as the pattern "k fresh leader entries, the other cluster reads only the newest ones, then we poll"
@@ -206,7 +220,49 @@ func run(c Case, o *vt.Obs) *vt.Failure {
 		return nil
 	}
 
+	// "at every moment": the follower's state is examined after EVERY Update call of its table state machine - the applied-index listener
+	// runs on the apply path, which is therefore paused while the hook reads (stale reads only: a consensus read would wait for the very
+	// apply that is paused).  A worker that splits one replication response into several proposals is observed between them.
+	var hookFail atomic.Pointer[vt.Failure]
+	applies := 0
+	hook := func(table string, rev uint64) {
+		if table != name || hookFail.Load() != nil {
+			return
+		}
+		applies++
+		e := p.F.E
+		if e == nil {
+			return
+		}
+		tb, err := e.GetTable(name)
+		if err != nil {
+			return
+		}
+		ctx, cancel := context.WithTimeout(context.Background(), 5*time.Second)
+		defer cancel()
+		li, err := tb.LeaderIndex(ctx, false)
+		if err != nil {
+			return
+		}
+		resp, err := e.Range(ctx, &regattapb.RangeRequest{Table: []byte(name), Key: []byte{0}, RangeEnd: []byte{0}})
+		if err != nil || resp.More {
+			return
+		}
+		var got []model.Pair
+		for _, kv := range resp.Kvs {
+			got = append(got, model.Pair{K: kv.Key, V: kv.Value})
+		}
+		if err := samePairs(got, h.at(li.Index).Pairs); err != nil {
+			hookFail.Store(vt.Failf(prop+"/follower-differs-at-recorded-index", 0, "right after an apply call of the follower table (announced index %d): the table records leader index %d but its content is not the leader's content at that index: %v", rev, li.Index, err))
+		}
+	}
+	p.OnApplied.Store(&hook)
+	defer p.OnApplied.Store(nil)
 	for i, a := range c.Acts {
+		if f := hookFail.Load(); f != nil {
+			f.Step = i
+			return f
+		}
 		switch a.Kind {
 		case "put":
 			ctx, cancel := ctxT()
@@ -327,6 +383,9 @@ func run(c Case, o *vt.Obs) *vt.Failure {
 		}
 	}
 	_ = worker
+	if f := hookFail.Load(); f != nil {
+		return f
+	}
 	// the leader is quiet now: a bounded number of polls must reach the leader's latest state
 	leaderLocal, _, err := replfx.Indices(p.L.E, name)
 	if err != nil {
@@ -361,6 +420,10 @@ func run(c Case, o *vt.Obs) *vt.Failure {
 	if err := samePairs(got, m.Pairs); err != nil {
 		return vt.Failf(prop+"/final-state-differs", len(c.Acts), "leader quiet, follower caught up to %d: %v", leaderLocal, err)
 	}
+	if f := hookFail.Load(); f != nil {
+		return f
+	}
+	o.LabelN("follower-apply-calls-examined", applies)
 	o.NonTrivial = (snapshots > 0 && txnsBefore > 0 && txnsAfter > 0) || restartsBetween > 0
 	if restartsBetween > 0 {
 		o.Label("restart-with-pending-entries")
